@@ -376,6 +376,13 @@ func rcls(err error) string {
 
 var scenSeq uint64
 
+// hangCount counts scenarios ended by the watchdog; once maxHangs of them have
+// been seen the remaining scenarios are skipped (the verdict is settled and
+// every further hang costs a full watchdog period).
+var hangCount int32
+
+const maxHangs = 40
+
 func runCase(c Case) []Ev {
 	s := &scen{c: c, id: fmt.Sprintf("s%d", atomic.AddUint64(&scenSeq, 1)), fired: map[int]bool{},
 		closeDone: make(chan struct{}), dead: make(chan struct{})}
@@ -458,6 +465,7 @@ func runCase(c Case) []Ev {
 				select {
 				case <-s.closeDone:
 				case <-time.After(watchdog):
+					atomic.AddInt32(&hangCount, 1)
 					s.log(Ev{T: "hang"})
 					s.freeze()
 					return s.snapshot()
@@ -496,6 +504,7 @@ func runCase(c Case) []Ev {
 	timer := time.NewTimer(watchdog)
 	defer timer.Stop()
 	hang := func() []Ev {
+		atomic.AddInt32(&hangCount, 1)
 		s.log(Ev{T: "hang"})
 		s.freeze()
 		s.kill()
@@ -815,6 +824,9 @@ func runAll(cs []Case, par int) {
 		go func(i int) {
 			defer wg.Done()
 			defer func() { <-sem }()
+			if atomic.LoadInt32(&hangCount) >= maxHangs {
+				return
+			}
 			cs[i].Trace = runCase(cs[i])
 		}(i)
 	}
@@ -907,8 +919,16 @@ func main() {
 		}
 	}
 	runAll(cs, par)
+	skipped := 0
 	for _, c := range cs {
+		if c.Trace == nil {
+			skipped++
+			continue
+		}
 		e.emit(c)
+	}
+	if skipped > 0 {
+		meta.Extra["skipped_after_hangs"] = skipped
 	}
 	e.flush()
 	meta.Exhaustive = false
